@@ -462,3 +462,48 @@ Qed.
    pool: numChunks = (size + chunk - 1) / chunk wrapped to 0 and the body was never called); numChunks is now computed as
    size / chunk + (size % chunk != 0) *)
 Definition c12_chunkovf_witness : pfcfg := PF 7 0 100 (2 ^ 64 - 50) 4 2147483647 1 1 true.
+
+(* ---------------------------------------------------------------- static path: the caller's ring index is irrelevant *)
+Lemma seq_as_map a b : seq a b = map (Nat.add a) (seq 0 b).
+Proof.
+  revert a; induction b as [|b IH]; intros a; [reflexivity|].
+  cbn [seq map]. f_equal; [lia|]. rewrite IH, <- seq_shift, map_map. apply map_ext. intros i. lia.
+Qed.
+
+Lemma static_chunk_indices_perm n wait ring : 1 <= n ->
+  Permutation (static_chunk_indices n wait ring) (zrange 0 (Z.to_nat n)).
+Proof.
+  intros Hn. unfold static_chunk_indices. destruct wait.
+  - set (cc := static_caller_chunk n true ring).
+    assert (Hc : 0 <= cc <= n - 1).
+    { subst cc. unfold static_caller_chunk. cbn [andb].
+      destruct ((0 <=? ring) && (ring <? n)) eqn:E; [|lia]. apply andb_true_iff in E. destruct E as [E1 E2].
+      apply Z.leb_le in E1. apply Z.ltb_lt in E2. lia. }
+    replace (Z.to_nat (n - 1)) with (Z.to_nat cc + Z.to_nat (n - 1 - cc))%nat by lia.
+    rewrite seq_app, map_app. cbn [Nat.add]. rewrite (seq_as_map (Z.to_nat cc)), map_map.
+    rewrite (map_ext_in _ (fun i => 0 + Z.of_nat i) (seq 0 (Z.to_nat cc))).
+    2:{ intros i Hi. apply in_seq in Hi. unfold static_sched_chunk. cbn [andb].
+        replace (cc <=? Z.of_nat i) with false by (symmetry; apply Z.leb_gt; lia). lia. }
+    rewrite (map_ext_in _ (fun i => (cc + 1) + Z.of_nat i) (seq 0 (Z.to_nat (n - 1 - cc)))).
+    2:{ intros i Hi. apply in_seq in Hi. unfold static_sched_chunk. cbn [andb].
+        replace (cc <=? Z.of_nat (Z.to_nat cc + i)) with true by (symmetry; apply Z.leb_le; lia). lia. }
+    rewrite <- !zrange_seq.
+    replace (Z.to_nat n) with (Z.to_nat cc + (1 + Z.to_nat (n - 1 - cc)))%nat by lia.
+    rewrite (zrange_app 0), (zrange_app (0 + Z.of_nat (Z.to_nat cc))). cbn [zrange Z.of_nat].
+    rewrite <- app_assoc. apply Permutation_app_head.
+    replace (0 + Z.of_nat (Z.to_nat cc)) with cc by lia.
+    replace (cc + Z.pos 1) with (cc + 1) by lia.
+    apply Permutation_sym. apply (Permutation_cons_append (zrange (cc + 1) (Z.to_nat (n - 1 - cc))) cc).
+  - rewrite app_nil_r. rewrite (map_ext _ (fun i => 0 + Z.of_nat i)) by (intros i; unfold static_sched_chunk; cbn [andb]; lia).
+    rewrite <- zrange_seq. apply Permutation_refl.
+Qed.
+
+(* the chunks executed for any caller ring index are, as a multiset, the chunks of the plan *)
+Lemma static_ring_independent {A} (B : list A) (d : A) wait ring : (1 <= length B)%nat ->
+  Permutation (map (fun i => nth (Z.to_nat i) B d) (static_chunk_indices (Z.of_nat (length B)) wait ring)) B.
+Proof.
+  intros HB. eapply Permutation_trans; [apply Permutation_map, static_chunk_indices_perm; lia|].
+  rewrite Nat2Z.id, zrange_seq, map_map.
+  rewrite (map_ext _ (fun j => nth j B d)) by (intros j; f_equal; lia).
+  rewrite <- (list_as_nth B d). apply Permutation_refl.
+Qed.
